@@ -235,7 +235,7 @@ func (m *c18Machine) Next(t *rapid.T) c18Op {
 		if rapid.IntRange(0, 19).Draw(t, "hash/odd") == 0 {
 			n = rapid.SampledFrom([]int{1, 20, 64}).Draw(t, "hash/len")
 		}
-		return c18Op{Kind: "block", Dt: gen.Dt(t, "dt"), Hash: c18Bytes(t, "hash", n), Meta: rapid.IntRange(0, 4).Draw(t, "meta") == 0}
+		return c18Op{Kind: "block", Dt: gen.DtFar(t, "dt", m.c.Time()), Hash: c18Bytes(t, "hash", n), Meta: rapid.IntRange(0, 4).Draw(t, "meta") == 0}
 	}
 }
 
@@ -720,6 +720,7 @@ func (m *c18Machine) Classify() (bool, []string) {
 	add(m.nZeroInterval > 0, "interval-0")
 	add(m.nLarge > 0, "large-interval-stays-queued")
 	add(m.nSameTx > 0, "requests-of-several-consumers-in-one-tx")
+	add(m.c.Time().Year() > 2262 && m.nPlainDone > 0, "block-time-beyond-2262")
 	add(m.nMeta > 0, "metamorphic-branch")
 	add(m.nPlainDone >= 3, "plain-fulfilled>=3")
 	return m.nMultiDue > 0 && m.nOracleOK > 0, cl
